@@ -537,7 +537,12 @@ VM_SPECS = r"""
         // a native function drops the call's registers when it is done (call_native_function truncates to
         // the frame base); a Koto function's frame keeps its base register
         &&& f.registers@.len() >= o.register_base + frame_base as int
-        &&& (o.registers@.len() >= o.min_frame_registers ==> f.registers@.len() >= f.min_frame_registers)
+        // (when a frame was pushed, `min_frame_registers` still is the CALLER's until the callee's NewFrame
+        // instruction runs, and the value stack may be shorter than that: nothing is claimed then)
+        // ... nor after a failed call: call_koto_function drops the temporaries above the arguments before it
+        // binds them, so a failed binding leaves the value stack short (execute_instructions restores it
+        // when it resumes at a catch block, finding F15)
+        &&& (ok && f.call_stack@.len() == n && o.registers@.len() >= o.min_frame_registers ==> f.registers@.len() >= f.min_frame_registers)
         &&& f.registers@.len() < 0x4000_0000_0000_0000
         &&& (forall|i: int| 0 <= i < n - 1 ==> #[trigger] f.call_stack@[i] == o.call_stack@[i])
         &&& (n > 0 ==> f.call_stack@.len() >= n && Self::frame_equiv(f.call_stack@[n - 1], o.call_stack@[n - 1]))
@@ -1110,6 +1115,14 @@ UNIT = Unit(
 """),
         Fn(F, "impl KotoVm :: fn call_koto_function", props=("C07", "C04", "C02"),
            subst=[("debug_assert!(!f.flags.is_generator());", "", 1)],
+           before=[("Ok(())", """proof {
+    let n = old(self).call_stack@.len() as int;
+    assert forall|i: int| 0 <= i < n - 1 implies #[trigger] self.call_stack@[i] == old(self).call_stack@[i] by {
+        assert(self.call_stack@.take(n - 1)[i] == self.call_stack@[i]);
+        assert(old(self).call_stack@.take(n - 1)[i] == old(self).call_stack@[i]);
+    }
+    if n > 0 { assert(self.call_stack@.drop_last()[n - 1] == self.call_stack@[n - 1]); }
+}""", -1)],
            spec=r"""
     requires
         old(self).wf(),
@@ -1129,6 +1142,10 @@ UNIT = Unit(
         r is Ok ==> final(self).call_stack@.last().register_base == old(self).register_base + call_info.frame_base as int,   // @frame_based_at_frame_base
         r is Ok ==> !final(self).call_stack@.last().execution_barrier,
         r is Ok ==> Self::stack_equiv(final(self).call_stack@.drop_last(), old(self).call_stack@),   // @caller_frames_kept
+        r is Ok && old(self).call_stack@.len() > 0 ==> Self::frame_equiv(final(self).call_stack@[old(self).call_stack@.len() - 1], old(self).call_stack@.last()),   // @calling_frame_kept
+        final(self).registers@.len() <= old(self).registers@.len() + 0x1_0000_0200,                   // @bounded_growth
+        // only the calling frame's return bookkeeping is written; the frames below it are untouched
+        r is Ok ==> forall|i: int| 0 <= i < old(self).call_stack@.len() - 1 ==> #[trigger] final(self).call_stack@[i] == old(self).call_stack@[i],   // @frames_below_the_caller_untouched
         // the registers below the call's frame base are never touched
         final(self).registers@.len() > old(self).register_base + call_info.frame_base as int,         // @frame_base_register_kept
         final(self).sequence_builders@ == old(self).sequence_builders@,
